@@ -36,6 +36,39 @@ type Exec struct {
 	curPos   token.Pos
 	epoch    int
 	quietInv map[string]bool
+	topRets  []retPoint
+	curNode  *node
+	lastNodes []*node
+}
+
+// ancestorsOf returns every DAG node through which an execution reaching node t may have passed.
+func ancestorsOf(t interface{}) map[interface{}]bool {
+	out := map[interface{}]bool{}
+	n, ok := t.(*node)
+	if !ok || n == nil {
+		return out
+	}
+	work := []*node{n}
+	for len(work) > 0 {
+		c := work[len(work)-1]
+		work = work[:len(work)-1]
+		if c == nil || out[c] {
+			continue
+		}
+		out[c] = true
+		for _, e := range c.in {
+			work = append(work, e.from)
+		}
+		if c.parent != nil {
+			work = append(work, c.parent)
+		}
+		for _, ex := range c.extra {
+			if !out[ex] {
+				out[ex] = true
+			}
+		}
+	}
+	return out
 }
 
 func NewExec(p *Program, fn *ssa.Function, name string, fs *FuncSpec, c *Case) *Exec {
@@ -45,6 +78,7 @@ func NewExec(p *Program, fn *ssa.Function, name string, fs *FuncSpec, c *Case) *
 	if c != nil {
 		x.Props = c.Props
 	}
+	x.VC.Ancestors = ancestorsOf
 	return x
 }
 
@@ -111,6 +145,7 @@ type writeRec struct {
 	guard        *Term
 	epoch        int
 	fresh        bool // object allocated in this activation
+	allocEpoch   int
 }
 
 func (x *Exec) recordWrite(st *State, key string, obj, lo, hi *Term) {
@@ -121,7 +156,7 @@ func (x *Exec) recordWrite(st *State, key string, obj, lo, hi *Term) {
 	if g == nil {
 		g = True
 	}
-	st.Writes = append(st.Writes, &writeRec{key: key, obj: obj, lo: lo, hi: hi, guard: g, epoch: st.CutEpoch, fresh: st.FreshObjs[obj]})
+	st.Writes = append(st.Writes, &writeRec{key: key, obj: obj, lo: lo, hi: hi, guard: g, epoch: st.CutEpoch, fresh: st.FreshObjs[obj] > 0, allocEpoch: st.FreshObjs[obj] - 1})
 }
 
 // objSetRange is objSet for a write that touches only element indices [lo,hi) of the object's inner array.
@@ -232,7 +267,7 @@ func (x *Exec) assumeRef(r *Term, guard *Term, st *State) {
 // alloc returns a fresh object reference distinct from every existing one.
 func (x *Exec) alloc(st *State, hint string) *Term {
 	r := st.Next
-	st.FreshObjs[r] = true
+	st.FreshObjs[r] = st.CutEpoch + 1
 	st.Next = x.VC.Def("next", IntBin("+", st.Next, IntLit(1)))
 	_ = hint
 	return r
@@ -300,7 +335,7 @@ func (x *Exec) Oblige(kind, expr string, site string, pos token.Pos, guard, goal
 		props = x.Props
 	}
 	o := &Obligation{ID: id, Fn: x.TopName, Kind: kind, Expr: expr, Pos: x.posOf(pos), Props: props, Guard: guard, Goal: goal,
-		NFacts: len(x.VC.Facts), vc: x.VC}
+		NFacts: len(x.VC.Facts), vc: x.VC, x: x, Tag: x.VC.CurTag}
 	if x.Case != nil {
 		o.CaseName = x.Case.Name
 	}
@@ -373,6 +408,9 @@ type node struct {
 	done   bool
 	idx    int
 	dead   bool
+	cutProved bool
+	parent *node   // caller node (for the entry node of an inlined callee)
+	extra  []*node // nodes of callees inlined while executing this node
 }
 
 type edge struct {
@@ -382,6 +420,7 @@ type edge struct {
 }
 
 type retPoint struct {
+	node  *node
 	guard *Term
 	vals  []Value
 	st    *State
@@ -434,6 +473,7 @@ type funcCtx struct {
 	cuts   map[*ssa.BasicBlock]*Clause
 	clauses []*Clause
 	top    bool
+	entryGuard *Term
 	rets   []retPoint
 	path   string
 }
@@ -444,7 +484,7 @@ func (x *Exec) runFunc(fn *ssa.Function, args []Value, bindings []Value, st *Sta
 		x.VC.Warnf("no body for %s: results havocked", fn.String())
 		return nil, st, guard
 	}
-	fc := &funcCtx{fn: fn, clauses: clauses, top: top, inLoop: map[*ssa.BasicBlock]*loopInfo{}, cutHdr: map[*ssa.BasicBlock]*loopInfo{}, cuts: map[*ssa.BasicBlock]*Clause{}}
+	fc := &funcCtx{fn: fn, clauses: clauses, top: top, entryGuard: guard, inLoop: map[*ssa.BasicBlock]*loopInfo{}, cutHdr: map[*ssa.BasicBlock]*loopInfo{}, cuts: map[*ssa.BasicBlock]*Clause{}}
 	fc.loops = findLoops(fn)
 	for _, l := range fc.loops {
 		for _, c := range clauses {
@@ -595,6 +635,8 @@ func (x *Exec) runFunc(fn *ssa.Function, args []Value, bindings []Value, st *Sta
 	}
 
 	// execute
+	entry.parent = x.curNode
+	x.lastNodes = topo
 	for _, n := range topo {
 		x.execNode(fc, n, entry, args, bindings, st, guard, specials[n] != nil, func(si int) (string, *loopInfo) {
 			if sp, ok := specials[n][si]; ok {
@@ -604,6 +646,9 @@ func (x *Exec) runFunc(fn *ssa.Function, args []Value, bindings []Value, st *Sta
 		})
 	}
 	// merge returns
+	if top {
+		x.topRets = fc.rets
+	}
 	if len(fc.rets) == 0 {
 		return nil, st, False
 	}
@@ -679,8 +724,8 @@ func (x *Exec) mergeStates(c *Term, a, b *State) *State {
 			n.Writes = append(n.Writes, w)
 		}
 	}
-	for k := range a.FreshObjs {
-		n.FreshObjs[k] = true
+	for k, v := range a.FreshObjs {
+		n.FreshObjs[k] = v
 	}
 	if a.CutEpoch > n.CutEpoch {
 		n.CutEpoch = a.CutEpoch
@@ -730,6 +775,8 @@ func (x *Exec) mergeStates(c *Term, a, b *State) *State {
 
 func (x *Exec) execNode(fc *funcCtx, n *node, entry *node, args []Value, bindings []Value, st0 *State, guard0 *Term, hasSpecial bool, special func(int) (string, *loopInfo)) {
 	fn := fc.fn
+	x.curNode = n
+	x.VC.CurTag = n
 	// ---- incoming state ----
 	if n == entry {
 		n.guard = guard0
@@ -764,6 +811,39 @@ func (x *Exec) execNode(fc *funcCtx, n *node, entry *node, args []Value, binding
 			eg[i] = And(e.from.guard, e.cond)
 		}
 		n.guard = x.VC.Def(fmt.Sprintf("g.%s.b%d.%d", fn.Name(), n.b.Index, n.iter), Or(eg...))
+		// section cut: the assertion is proved on every incoming edge separately (no merged arrays in the goal)
+		if c := fc.cuts[n.b]; c != nil && len(live) > 1 {
+			for i, e := range live {
+				pi := -1
+				for k, p := range n.b.Preds {
+					if p == e.from.b {
+						pi = k
+						break
+					}
+				}
+				if pi < 0 {
+					continue
+				}
+				sti := e.from.st.Clone()
+				for _, ins := range n.b.Instrs {
+					phi, ok := ins.(*ssa.Phi)
+					if !ok {
+						break
+					}
+					if phi.Comment != "" {
+						sti.Vars[phi.Comment] = x.operandIn(e.from.env, phi.Edges[pi], e.from.st)
+					}
+				}
+				x.VC.CurTag = e.from
+				gi := x.VC.Def("g.edge", eg[i])
+				env := x.localSpecEnv(sti, gi, false)
+				g := env.EvalBool(c.Expr)
+				x.reportSpecErrors(env, x.TopName, c)
+				x.Oblige("cut", fmt.Sprintf("%s#%d: %s", c.Block, c.Ord, clauseLabel(c)), "", n.b.Instrs[0].Pos(), gi, g, c.Props)
+				x.VC.CurTag = n
+			}
+			n.cutProved = true
+		}
 		n.st = live[0].from.st.Clone()
 		n.env = map[ssa.Value]Value{}
 		for k, v := range live[0].from.env {
